@@ -123,4 +123,43 @@ func c14MySQL(e *Env) {
 			}
 		}
 	}
+	// a dev connection bound to NO database (`--dev-url mysql://host/`): the normaliser creates the whole desired
+	// realm on the server, reads it back and removes it again - also when a statement in the middle fails
+	realm := func() *schema.Realm {
+		r := schema.NewRealm()
+		for _, sn := range []string{"app", "shop"} {
+			s := schema.New(sn)
+			for _, tn := range []string{"users", "orders"} {
+				s.AddTables(schema.NewTable(sn + "_" + tn).AddColumns(schema.NewIntColumn("id", "int")))
+			}
+			r.AddSchemas(s)
+		}
+		return r
+	}
+	for _, failOn := range []string{"", "CREATE DATABASE `app`", "CREATE TABLE `app`.`app_users`", "CREATE TABLE `app`.`app_orders`", "CREATE DATABASE `shop`", "CREATE TABLE `shop`.`shop_users`", "CREATE TABLE `shop`.`shop_orders`"} {
+		f := newFakeMySQL("")
+		db := sql.OpenDB(f)
+		before := f.State()
+		id := fmt.Sprintf("mysql, dev connection bound to no database: NormalizeRealm of two schemas x two tables, the statement holding %q fails", failOn)
+		rep := map[string]any{"case": id}
+		e.Res.Count("mysql-realm/"+id, failOn != "", "mysql-dev", "mysql-normalize-realm")
+		drv, err := mysql.Open(db)
+		if err != nil {
+			db.Close()
+			continue
+		}
+		f.FailOn = failOn
+		f.Execs = nil
+		_, nerr := drv.(schema.Normalizer).NormalizeRealm(ctx, realm())
+		f.FailOn = ""
+		switch {
+		case len(f.Unknown) > 0 && failOn == "":
+			e.Res.Violate("no-failing-input-found", "fakemysql-unsupported", fmt.Sprintf("%s: the stand-in does not understand %v", id, f.Unknown), "correspondence C14 mysql", rep)
+		case failOn != "" && nerr == nil:
+			e.Res.Note("c14 mysql realm: the failing statement %q was never sent", failOn)
+		case f.State() != before:
+			e.Res.Violate("failing-input", "dev-not-returned-as-found", fmt.Sprintf("%s (result: %v): the dev server is not handed back as it was found: before {%s}, after {%s}; statements: %v", id, nerr, before, f.State(), f.Execs), "Props.C14.restore_exact (mysql, realm)", rep)
+		}
+		db.Close()
+	}
 }
